@@ -572,7 +572,7 @@ def prebuild(tier):
 
 
 SUBCHECKS = [
-    Sub("bls", bls_cases(), check_bls, 16000, 300000, ("asm",), ("asm", "asm:base", "p64", "p32")),
+    Sub("bls", bls_cases(), check_bls, 16000, 150000, ("asm",), ("asm", "asm:base", "p64", "p32")),
     Sub("schemes", scheme_cases(), check_scheme, 1200, 20000, ("asm",), ("asm", "p32")),
     Sub("marshal", marshal_cases(), check_marshal, 12000, 150000, ("asm",), ("asm", "p32")),
 ]
